@@ -1,11 +1,13 @@
 #!/bin/sh
-# usage: lib/seedbatch.sh ID...   evaluates /tmp/seed-<ID>/SEED/{1,2,3} and writes /tmp/seedeval-<ID>.jsonl
+# usage: lib/seedbatch.sh [-p prefix] ID...   evaluates /tmp/<prefix>-<ID>/SEED/{1..4} and writes /tmp/seedeval-<prefix>-<ID>.jsonl (prefix default "seed")
 cd "$(dirname "$0")/.." || exit 1
+PFX=seed
+if [ "$1" = "-p" ]; then PFX=$2; shift; shift; fi
 for id in "$@"; do
-  : > /tmp/seedeval-$id.jsonl
+  : > /tmp/seedeval-$PFX-$id.jsonl
   for k in 1 2 3 4; do
-    [ -d /tmp/seed-$id/SEED/$k ] || continue
-    python3 lib/seedeval.py $id /tmp/seed-$id/SEED/$k 2>&1 | tail -1 >> /tmp/seedeval-$id.jsonl
+    [ -d /tmp/$PFX-$id/SEED/$k ] || continue
+    python3 lib/seedeval.py $id /tmp/$PFX-$id/SEED/$k 2>&1 | tail -1 >> /tmp/seedeval-$PFX-$id.jsonl
   done
   echo "done $id"
 done
